@@ -263,8 +263,9 @@ Definition report_ok (r : report) (c : case) : bool :=
   outcome_eqb (r_outcome r) (c_outcome c) &&
   (* when the run panics the harness still sees the emits made before the panic *)
   zs_eqb (r_events r) (c_events c).
+Definition fuel0 : nat := 100 * 1000.
 Definition case_ok (c : case) : bool :=
-  report_ok (eval_repl all_off 100000 (c_prog c)) c && report_ok (eval_repl all_on 100000 (c_prog c)) c.
+  report_ok (eval_repl all_off fuel0 (c_prog c)) c && report_ok (eval_repl all_on fuel0 (c_prog c)) c.
 
 Definition mismatches (cs : list case) : list Z :=
   map c_idx (filter (fun c => negb (case_ok c)) cs).
